@@ -217,26 +217,51 @@ def build_harness(variant='release'):
 # running cases
 # ----------------------------------------------------------------------------------------------------------
 def _run_one(binary, lines, isolate, per_case_timeout, env):
-    """Run `lines` through `binary`. With isolate, a process death or hang is attributed to the first case without
-    output, recorded as CRASH/HANG, and the rest continues in a fresh process."""
+    """Run `lines` through `binary`. With isolate, a process death or a stall (no new output line for `stall` seconds) is attributed to
+    the first case without output, recorded as CRASH/HANG, and the rest continues in a fresh process."""
     outs = {}
     rest = lines
     e = dict(os.environ)
     e.update(env or {})
     if isolate:
         e['VERIF_FLUSH'] = '1'
+    stall = max(6.0, 40 * per_case_timeout)
     while rest:
-        budget = max(20.0, per_case_timeout * len(rest))
-        p = subprocess.Popen([binary], stdin=subprocess.PIPE, stdout=subprocess.PIPE, stderr=subprocess.PIPE, text=True, env=e, errors='replace')
-        try:
-            so, se = p.communicate("\n".join(rest) + "\n", timeout=budget)
-            status = p.returncode
-        except subprocess.TimeoutExpired:
-            p.kill()
-            so, se = p.communicate()
-            status = 'HANG'
+        p = subprocess.Popen([binary], stdin=subprocess.PIPE, stdout=subprocess.PIPE, stderr=subprocess.DEVNULL, text=True, env=e, errors='replace')
+        got = []
+        state = {'t': time.time()}
+
+        def feed():
+            try:
+                p.stdin.write("\n".join(rest) + "\n")
+                p.stdin.close()
+            except Exception:
+                pass
+
+        def read():
+            for l in p.stdout:
+                got.append(l.rstrip('\n'))
+                state['t'] = time.time()
+        tf = threading.Thread(target=feed, daemon=True)
+        tr = threading.Thread(target=read, daemon=True)
+        tf.start()
+        tr.start()
+        status = None
+        budget_end = time.time() + max(60.0, per_case_timeout * len(rest) * 4)
+        while True:
+            tr.join(0.2)
+            if not tr.is_alive():
+                p.wait()
+                status = p.returncode
+                break
+            now = time.time()
+            if (isolate and now - state['t'] > stall) or now > budget_end:
+                p.kill()
+                tr.join(2)
+                status = 'HANG'
+                break
         done = 0
-        for l in so.splitlines():
+        for l in got:
             if ' ' in l:
                 k, v = l.split(' ', 1)
                 outs[k] = v
@@ -247,21 +272,19 @@ def _run_one(binary, lines, isolate, per_case_timeout, env):
         if status == 0 and done >= len(rest):
             break
         if not isolate:
-            # report the process failure on every case that has no output
             for l in rest:
                 cid = l.split(' ', 2)[1]
                 outs.setdefault(cid, 'R=PROCESS-FAILED(%s) ## process=FAILS' % status)
             break
-        # attribute to the first case without output
         idx = None
         for i, l in enumerate(rest):
-            cid = l.split(' ', 2)[1]
+            cid = l.split(' ', 2)[1].rstrip(')')
             if cid not in outs:
                 idx = i
                 break
         if idx is None:
             break
-        cid = rest[idx].split(' ', 2)[1]
+        cid = rest[idx].split(' ', 2)[1].rstrip(')')
         what = 'HANG' if status == 'HANG' else 'CRASH(%s)' % (signal.Signals(-status).name if isinstance(status, int) and status < 0 else status)
         outs[cid] = 'R=%s ## crash=FAILS' % what
         rest = rest[idx + 1:]
